@@ -473,15 +473,9 @@ Definition set_dp d (w : world) : world :=
 
 (* --- LocalNode: node.go:612-690 (with the repaired bounds checks: see known_findings.txt) *)
 
-(* Go: int(lSeid) on a 64-bit platform is the two's-complement reinterpretation *)
-Definition to_int64 (x : N) : Z :=
-  let z := Z.of_N (x mod 18446744073709551616) in
-  if (z <? 9223372036854775808)%Z then z else (z - 18446744073709551616)%Z.
-
-(* slice indexing with Go's run-time check *)
-Definition slot_get (sl : list (option sess)) (i : Z) : res (option sess) :=
-  if (i <? 0)%Z then Fault FIndexOutOfRange else
-  match nth_error sl (Z.to_nat i) with
+(* slice indexing with Go's run-time bounds check *)
+Definition slot_get (sl : list (option sess)) (i : nat) : res (option sess) :=
+  match nth_error sl i with
   | Some x => Ok x
   | None => Fault FIndexOutOfRange
   end.
@@ -493,31 +487,36 @@ Fixpoint set_nth {A} (n : nat) (x : A) (l : list A) : list A :=
   | y :: r, S k => y :: set_nth k x r
   end.
 
-Definition slot_set (sl : list (option sess)) (i : Z) (x : option sess) : res (list (option sess)) :=
-  if (i <? 0)%Z then Fault FIndexOutOfRange else
-  if (Z.to_nat i <? length sl)%nat then Ok (set_nth (Z.to_nat i) x sl) else Fault FIndexOutOfRange.
+Definition slot_set (sl : list (option sess)) (i : nat) (x : option sess) : res (list (option sess)) :=
+  if (i <? length sl)%nat then Ok (set_nth i x sl) else Fault FIndexOutOfRange.
 
 Inductive found (A : Type) := Found (a : A) | NotFound.
 Arguments Found {A} a.
 Arguments NotFound {A}.
 
-(* LocalNode.Sess *)
+(* LocalNode.Sess (repaired):  if lSeid == 0 -> not found;  if lSeid > uint64(len(n.sess)) -> not found;
+   i := int(lSeid) - 1  (exact, because lSeid <= len <= MaxInt64);  n.sess[i] == nil -> not found *)
 Definition lookup (sl : list (option sess)) (seid : N) : res (found sess) :=
   if seid =? 0 then Ok NotFound else
-  let i := (to_int64 seid - 1)%Z in
-  if (i <? 0)%Z || (Z.of_nat (length sl) <=? i)%Z then Ok NotFound else
-  match slot_get sl i with
+  if N.of_nat (length sl) <? seid then Ok NotFound else
+  match slot_get sl (N.to_nat (seid - 1)) with
   | Fault f => Fault f
   | Ok None => Ok NotFound
   | Ok (Some s) => Ok (Found s)
   end.
 
-(* the code as it stood at the pinned commit: no lower bound on the index (kept for the refutation example) *)
+(* The code as it stood at the pinned commit: i := int(lSeid) - 1 (two's complement), only i >= len
+   checked.  Kept for the refutation example (a negative index is a run-time fault). *)
+Definition to_int64 (x : N) : Z :=
+  let z := Z.of_N (x mod 18446744073709551616) in
+  if (z <? 9223372036854775808)%Z then z else (z - 18446744073709551616)%Z.
+
 Definition lookup_legacy (sl : list (option sess)) (seid : N) : res (found sess) :=
   if seid =? 0 then Ok NotFound else
   let i := (to_int64 seid - 1)%Z in
   if (Z.of_nat (length sl) <=? i)%Z then Ok NotFound else
-  match slot_get sl i with
+  if (i <? 0)%Z then Fault FIndexOutOfRange else
+  match slot_get sl (Z.to_nat i) with
   | Fault f => Fault f
   | Ok None => Ok NotFound
   | Ok (Some s) => Ok (Found s)
@@ -541,7 +540,7 @@ Definition new_sess (w : world) (rid : N) (node : nat) : res (world * sess) :=
   match rev (w_free w) with
   | last :: _ =>
     let s := empty_sess last rid node in
-    match slot_set (w_slots w) (to_int64 last - 1)%Z (Some s) with
+    match slot_set (w_slots w) (N.to_nat (last - 1)) (Some s) with
     | Fault f => Fault f
     | Ok sl => Ok (set_slots_free sl (removelast (w_free w)) w, s)
     end
@@ -557,25 +556,25 @@ Definition node_upd (ref : nat) (f : rnode -> rnode) (h : list rnode) : list rno
 (* RemoteNode.DeleteSess + LocalNode.DeleteSess.  Returns the closed session (for the response) and
    the usage reports of Close. *)
 Definition delete_sess (e : env) (w : world) (ref : nat) (lid : N)
-  : res (option (world * list out * sess * list rpt)) :=
+  : res (world * option (list out * sess * list rpt)) :=
   match nth_error (w_heap w) ref with
-  | None => Ok None
+  | None => Ok (w, None)
   | Some n =>
-    if negb (memN lid (n_sess n)) then Ok None else
+    if negb (memN lid (n_sess n)) then Ok (w, None) else
     let w1 := set_heap (node_upd ref (fun n => mkNode (n_id n) (n_addr n) (delN lid (n_sess n))) (w_heap w)) w in
-    if lid =? 0 then Ok None else
-    let i := (to_int64 lid - 1)%Z in
-    if (i <? 0)%Z || (Z.of_nat (length (w_slots w1)) <=? i)%Z then Ok (Some (w1, [], empty_sess 0 0 0, [])) else
+    if lid =? 0 then Ok (w1, None) else
+    if N.of_nat (length (w_slots w1)) <? lid then Ok (w1, None) else
+    let i := N.to_nat (lid - 1) in
     match slot_get (w_slots w1) i with
     | Fault f => Fault f
-    | Ok None => Ok (Some (w1, [], empty_sess 0 0 0, []))
+    | Ok None => Ok (w1, None)
     | Ok (Some s) =>
       match sess_close e (mkCtx s (w_dp w1) []) with
-      | None => Ok None
+      | None => Ok (w1, None)
       | Some (c, rs) =>
         match slot_set (w_slots w1) i None with
         | Fault f => Fault f
-        | Ok sl => Ok (Some (set_dp (c_dp c) (set_slots_free sl (w_free w1 ++ [lid]) w1), c_out c, c_s c, rs))
+        | Ok sl => Ok (set_dp (c_dp c) (set_slots_free sl (w_free w1 ++ [lid]) w1), Some (c_out c, c_s c, rs))
         end
       end
     end
@@ -591,8 +590,8 @@ Fixpoint reset_loop (e : env) (w : world) (ref : nat) (ids : list N) (acc : list
   | lid :: r =>
     match delete_sess e w ref lid with
     | Fault f => Fault f
-    | Ok None => reset_loop e w ref r acc
-    | Ok (Some (w1, o, _, _)) => reset_loop e w1 ref r (acc ++ o)
+    | Ok (w1, None) => reset_loop e w1 ref r acc
+    | Ok (w1, Some (o, _, _)) => reset_loop e w1 ref r (acc ++ o)
     end
   end.
 
@@ -675,7 +674,7 @@ Definition send_req (w : world) (dst rseid : N) (p : pdu) : world * list out :=
   (set_tx (kset (dst, q) (mkTx p' 0 rseid) (w_tx w)) ((q + 1) mod 16777216) w, [OSend dst p' false]).
 
 Definition put_slot (w : world) (s : sess) : res world :=
-  match slot_set (w_slots w) (to_int64 (s_lid s) - 1)%Z (Some s) with
+  match slot_set (w_slots w) (N.to_nat (s_lid s - 1)) (Some s) with
   | Fault f => Fault f
   | Ok sl => Ok (set_slots_free sl (w_free w) w)
   end.
@@ -777,9 +776,9 @@ Definition handle_del (w : world) (peer seq seid : N) (e : env) : res (world * l
   | Ok (Found s) =>
     match delete_sess e w (s_node s) seid with
     | Fault f => Fault f
-    | Ok None =>
-      let '(w1, o1) := send_rsp w peer seq (PDelRsp seq (s_rid s) CauseAccepted []) in Ok (w1, o1)
-    | Ok (Some (w1, o1, s1, rs)) =>
+    | Ok (w0, None) =>
+      let '(w1, o1) := send_rsp w0 peer seq (PDelRsp seq (s_rid s) CauseAccepted []) in Ok (w1, o1)
+    | Ok (w1, Some (o1, s1, rs)) =>
       let '(_, ies) := emit USAR_TRIG_TERMR true (s_urrs s1) rs in
       let '(w2, o2) := send_rsp w1 peer seq (PDelRsp seq (s_rid s) CauseAccepted ies) in
       Ok (w2, o1 ++ o2)
@@ -793,8 +792,8 @@ Definition handle_report_rsp (w : world) (peer hdr : N) (t : txent) (e : env) : 
     | Found s =>
       match delete_sess e w (s_node s) (s_lid s) with
       | Fault f => Fault f
-      | Ok None => Ok (w, [])
-      | Ok (Some (w1, o1, _, _)) => Ok (w1, o1)
+      | Ok (w1, None) => Ok (w1, [])
+      | Ok (w1, Some (o1, _, _)) => Ok (w1, o1)
       end
     end
   else
